@@ -106,7 +106,42 @@ Definition chk_c13_records (c : val) : val :=
   | None => verdict_ok
   end.
 
-(* part ws: input ( cs has_body frames responses outcome req-binary resp-binary ) ; impl ( to-target frames-to-client close-code reason-has-code ) *)
+(* ---- the reason of the close frame (websocketError + truncateReason, webbridge/websocket.go, after the repair F32):
+   "code <Name>: <message>", cut down to 123 bytes at a character boundary (never inside a multi-byte UTF-8 character) ---- *)
+Definition code_names : list bytes :=
+  ([[79; 75];
+   [67; 97; 110; 99; 101; 108; 101; 100];
+   [85; 110; 107; 110; 111; 119; 110];
+   [73; 110; 118; 97; 108; 105; 100; 65; 114; 103; 117; 109; 101; 110; 116];
+   [68; 101; 97; 100; 108; 105; 110; 101; 69; 120; 99; 101; 101; 100; 101; 100];
+   [78; 111; 116; 70; 111; 117; 110; 100];
+   [65; 108; 114; 101; 97; 100; 121; 69; 120; 105; 115; 116; 115];
+   [80; 101; 114; 109; 105; 115; 115; 105; 111; 110; 68; 101; 110; 105; 101; 100];
+   [82; 101; 115; 111; 117; 114; 99; 101; 69; 120; 104; 97; 117; 115; 116; 101; 100];
+   [70; 97; 105; 108; 101; 100; 80; 114; 101; 99; 111; 110; 100; 105; 116; 105; 111; 110];
+   [65; 98; 111; 114; 116; 101; 100];
+   [79; 117; 116; 79; 102; 82; 97; 110; 103; 101];
+   [85; 110; 105; 109; 112; 108; 101; 109; 101; 110; 116; 101; 100];
+   [73; 110; 116; 101; 114; 110; 97; 108];
+   [85; 110; 97; 118; 97; 105; 108; 97; 98; 108; 101];
+   [68; 97; 116; 97; 76; 111; 115; 115];
+   [85; 110; 97; 117; 116; 104; 101; 110; 116; 105; 99; 97; 116; 101; 100]])%N.
+Definition is_cont (c : N) : bool := ((128 <=? c) && (c <=? 191))%N.     (* a UTF-8 continuation byte: not the start of a character *)
+(* back up from position n to the start of a character *)
+Fixpoint rune_cut (n : nat) (s : bytes) : nat :=
+  match n with
+  | O => O
+  | S m => if is_cont (nth n s 0%N) then rune_cut m s else n
+  end.
+Definition max_reason : nat := 123.
+Definition truncate_reason (s : bytes) : bytes :=
+  if (length s <=? max_reason)%nat then s else firstn (rune_cut max_reason s) s.
+Definition close_reason (outcome : Z) (msg : bytes) : bytes :=
+  truncate_reason ([99; 111; 100; 101; 32]%N ++ nth (Z.to_nat outcome) code_names [] ++ [58; 32]%N ++ msg).
+
+(* part ws: input ( cs has_body frames responses outcome req-binary resp-binary message ) ;
+   impl ( to-target frames-to-client close-code reason-has-code reason ) - the reason text is compared for calls that the
+   TARGET ends with an error (message = its status message); the harness reports an empty reason otherwise *)
 Definition as_frames (v : val) : list (bool * bytes) := map (fun f => (as_bool (nthv 0 f), as_S (nthv 1 f))) (as_L v).
 Definition run_ws13 (v : val) : val :=
   let cs := as_bool (nthv 0 v) in
@@ -116,8 +151,9 @@ Definition run_ws13 (v : val) : val :=
   let resp_bin := as_bool (nthv 6 v) in
   match ws_requests cs hb (flip_frames req_bin (as_frames (nthv 2 v))) with
   | WsOk l => VL [VL (map (fun p => VS (strip_ws p)) l); VL (map (fun r => VL [vbool (negb resp_bin); VS (strip_ws (as_S r))]) (as_L (nthv 3 v)));
-                  VN (ws_close outcome false); vbool (negb (Z.eqb outcome 0))]
-  | WsWrongType l => VL [VL (map (fun p => VS (strip_ws p)) l); VL []; VN (ws_close outcome true); vbool true]
+                  VN (ws_close outcome false); vbool (negb (Z.eqb outcome 0));
+                  VS (if Z.eqb outcome 0 then [] else close_reason outcome (as_S (nthv 7 v)))]
+  | WsWrongType l => VL [VL (map (fun p => VS (strip_ws p)) l); VL []; VN (ws_close outcome true); vbool true; VS []]
   end.
 Definition prop_ws13 (input impl : val) : option Z :=
   let m := run_ws13 input in
@@ -125,5 +161,6 @@ Definition prop_ws13 (input impl : val) : option Z :=
   else if negb (val_eqb (nthv 1 impl) (nthv 1 m)) then Some 2%Z   (* responses are not one frame each, of the codec's type, in order *)
   else if negb (val_eqb (nthv 2 impl) (nthv 2 m)) then Some 3%Z   (* wrong close code *)
   else if negb (val_eqb (nthv 3 impl) (nthv 3 m)) then Some 4%Z   (* close reason does not carry the gRPC code *)
+  else if negb (val_eqb (nthv 4 impl) (nthv 4 m)) then Some 5%Z   (* the reason is not "code <Name>: <message>" cut to 123 bytes at a character boundary *)
   else None.
 Definition chk_c13_ws : val -> val := mk_chk run_ws13 prop_ws13.
